@@ -201,6 +201,8 @@ def im_det_cases(tpl, tier):
     cap = tpl.cap or (64 if tier == "quick" else 400)
     if tier == "thorough":
         cap = max(cap * 4, 200)
+    else:
+        cap = max(8, int(cap * 0.6))        # quick-tier budget: ~95 000 cases in all
     if os.environ.get("C19_DEVCAP"):
         cap = min(cap, int(os.environ["C19_DEVCAP"]))
     if total <= cap:
@@ -224,8 +226,12 @@ def im_det_cases(tpl, tier):
 def im_state(tpl, vals, fidx, emu):
     from vlib import isamodels as I
     st = dict(emu.base)
-    fl = I.flagsets(tpl.arch, tpl.flagsets)
-    st.update(fl[fidx % len(fl)])
+    if isinstance(fidx, str):               # "all:<k>": k-th member of the full flag-set table (random stratum)
+        fl = I.flagsets(tpl.arch, "all")
+        st.update(fl[int(fidx.split(":")[1]) % len(fl)])
+    else:
+        fl = I.flagsets(tpl.arch, tpl.flagsets)
+        st.update(fl[fidx % len(fl)])
     for (r, vc), v in zip(tpl.slots, vals):
         st[r] = v & ((1 << I.vbits(vc)) - 1)
         if tpl.arch == "aarch64l" and vc == "w32":
@@ -304,7 +310,7 @@ CC_INPUTS = [
     ([0, 0, 0], [0] * 8),
     ([0x80000000, 3, 0xfffffff9], [0x80000000, 0x7fffffff, 0xff, 0x8000, 0xdeadbeef, 1, 0xffff0000, 0x00ff00ff]),
 ]
-STEP_LIMIT = {"quick": 30000, "thorough": 150000}      # executed instructions per run (approximate)
+STEP_LIMIT = {"quick": 12000, "thorough": 100000}      # executed instructions per run (approximate)
 _limit = [30000]
 
 
@@ -360,7 +366,7 @@ class Native2(object):
         src = os.path.join(workdir, "%s_native.c" % tag)
         with open(src, "w") as f:
             f.write(ccorpus.render(funcs, 32))
-        for k, cmd in enumerate((["gcc", "-O1", "-fwrapv"], ["clang", "-O0"])):
+        for k, cmd in enumerate((["gcc", "-O1", "-fwrapv", "-fno-strict-aliasing"], ["clang", "-O0"])):
             so = os.path.join(workdir, "%s_native%d.so" % (tag, k))
             p = subprocess.run(cmd + ["-w", "-shared", "-fPIC", src, "-o", so], stdout=subprocess.PIPE,
                                stderr=subprocess.STDOUT)
@@ -502,9 +508,26 @@ class CcRunner(object):
 
 
 def cc_compile(arch, opt, funcs, workdir, tag):
+    """ccorpus.compile_batch with -fno-strict-aliasing added: the corpus reads and writes the W array through
+    uint16_t / int16_t lvalues, which type-based alias analysis may reorder against the word accesses (observed:
+    clang -O2 for aarch64 swaps a STR and a STRH to the same address); the host oracle does not."""
+    import subprocess
     from vlib import ccorpus, jitlab
-    out, err = ccorpus.compile_batch(funcs, arch, opt, workdir, jitlab.layout(arch)["code"], tag=tag)
-    return out
+    t = ccorpus.TARGETS[arch]
+    src = os.path.join(workdir, "%s_%s%s.c" % (tag, arch, opt))
+    objp = src[:-2] + ".o"
+    with open(src, "w") as f:
+        f.write(ccorpus.render(funcs, t["wbits"]))
+    cmd = (["clang", "--target=" + t["triple"], opt, "-fno-strict-aliasing"] + ccorpus.COMMON_FLAGS + t["flags"]
+           + ["-c", src, "-o", objp])
+    p = subprocess.run(cmd, stdout=subprocess.PIPE, stderr=subprocess.STDOUT)
+    if p.returncode != 0:
+        return [dict(tag=tg, code=None, reason="clang-error") for tg, _ in funcs]
+    with open(objp, "rb") as f:
+        data = f.read()
+    os.unlink(objp)
+    res = ccorpus.extract(data, len(funcs), jitlab.layout(arch)["code"])
+    return [dict(tag=funcs[k][0], code=res[k][0], reason=res[k][1]) for k in range(len(funcs))]
 
 
 def cc_unsupported_text(arch, code, pc):
@@ -662,10 +685,51 @@ class C19(Check):
     pid = "C19"
     level = "exploration"
     needs_build = True
-    rule = ""
-    assumptions = []
-    level_text = ""
-    technique = ""
+    rule = ("two strata on arml, armtl (Thumb-2), aarch64l, mips32l, mips32b, ppc32b, all on the Python jitter. "
+            "(cc) vlib.ccorpus C functions f(a,b,c,arr) (13 fixed + generated; deterministic part identical at every "
+            "seed) compiled by clang at -O0/-O1/-O2/-Os (-fno-strict-aliasing), called through the ABI with 4 fixed "
+            "input vectors (seeded part: Hypothesis-drawn program seeds and boundary-biased inputs); judged on return "
+            "value, the 8-word array and its guard bytes against the same C text run natively (host gcc -O1 and host "
+            "clang -O0 must agree; big-endian targets: byte / half-word indices mirrored in the oracle text). A value "
+            "mismatch is localised: first re-run on a fresh jitter without block cuts (bucket jitter:block-partition "
+            "if that passes), then by spectrum (instruction forms executed by the failing run and by no passing run of "
+            "the same function over 4 optimisation levels x 5 inputs). Non-trivial: >= 8 executed instructions; "
+            "distinct by (arch, opt, function, inputs). "
+            "(im) vlib.isamodels templates assembled by llvm-mc (never by miasm), one instruction (a whole IT block for "
+            "Thumb) per run from a generated state: deterministic product of boundary operand values x flag sets capped "
+            "per template by index striding, plus Hypothesis-drawn (template, values, flags); compared field by field "
+            "(every GPR, NZCV / HI-LO / XER CA-OV-SO, CR0-7, LR, CTR, next PC) with the model. Non-trivial: the model "
+            "changes the state; distinct by (arch, text, values, flags). Groups: ARM/Thumb data processing with every "
+            "operand-2 form and shifter carry-out, modified immediates, conditional execution over all conditions x "
+            "NZCV, IT blocks, 16-bit Thumb forms, shifts, multiply family, divide, bit-field, extend, byte reverse; "
+            "AArch64 add/sub (shifted, extended, immediate), adc/sbc/ngc, logical incl. bitmask immediates, "
+            "UBFM/SBFM/BFM raw and aliases, EXTR, CSEL family and CCMP/CCMN over all conditions x NZCV, variable "
+            "shifts, multiply/divide (32/64 and long), CLZ/CLS/RBIT/REV*, MOVZ/MOVN/MOVK; MIPS32r2 ALU, immediates, "
+            "shifts/rotates, SLT*, MULT/MULTU/MADD*/MSUB*/DIV/DIVU with HI/LO, MOVN/MOVZ, CLZ/CLO, SEB/SEH/WSBH, EXT/INS; "
+            "PowerPC add/subf families (carrying, extended, ze/me, OE and record forms), immediates, mul/div, logical, "
+            "shifts with CA, rlwinm/rlwimi/rlwnm, cntlzw/exts*, cmp/cmpl/cmpi/cmpli into CR0/1/7.")
+    assumptions = ["no CPU emulator exists in this sandbox: the reference is (cc) native execution of the same C text on "
+                   "the host and (im) models written for this check from the ARM ARM (DDI 0406C / DDI 0487), MIPS32 Vol. II "
+                   "and Power ISA Book I; an instruction that is in neither stratum (see the per-architecture mnemonic "
+                   "lists in coverage) is not claimed: loads/stores, branches and delay slots are covered only through "
+                   "(cc); floating point, SIMD, system, exclusive/atomic and coprocessor instructions not at all",
+                   "clang, llvm-mc and the host compilers are trusted to implement C and the encodings correctly",
+                   "instructions miasm does not decode, or decodes but has no semantics for (NotImplementedError / "
+                   "'unknown mnemo'), are not 'supported instructions': programs reaching one and such templates are "
+                   "counted as dropped and listed by name",
+                   "results the manuals leave UNPREDICTABLE / undefined (MIPS DIV by zero and INT_MIN/-1, HI/LO after MUL, "
+                   "PowerPC divw/divwu by zero or overflow) are not compared",
+                   "a compiled-C run that exceeds the step limit (12 000 instructions quick / 100 000 thorough) is "
+                   "inconclusive and dropped, never a verdict",
+                   "PowerPC: only the integer state (R0-31, CR0-7 bits, XER CA/OV/SO/BC, LR, CTR) is compared after an "
+                   "instruction; the other ~200 special registers are not",
+                   "the jitter is used with default options (blocks of at most 50 instructions); one jitter serves the "
+                   "input vectors of a program in (cc) and all templates of an architecture in (im) (it is replaced "
+                   "after any Python exception)"]
+    level_text = ("differential testing of compiled C programs against native execution plus manual-derived per-"
+                  "instruction models over a deterministic template x boundary-value product and random supplements; "
+                  "the covered mnemonics are enumerated in the evidence")
+    technique = "compiled-C differential against the host + reference models of single instructions (llvm-mc encodings)"
 
     def nshards(self, tier):
         return 48 if tier == "thorough" else 16
@@ -798,6 +862,24 @@ class C19(Check):
                 if t.key in dead:
                     break
                 self.im_case(res, t, vals, fidx, "det", dead)
+        # Hypothesis supplement: random template, random / boundary operand values, any flag state
+        pool = [t for t in usable if t.key not in dead]
+        if pool:
+            from vlib import hyp, isamodels as I
+            from hypothesis import strategies as st
+            n = 2500 if tier == "thorough" else 250
+            word = st.one_of(st.sampled_from(I.W64), st.sampled_from(I.W32), st.sampled_from(I.AMT),
+                             st.integers(0, (1 << 64) - 1), st.integers(0, (1 << 32) - 1),
+                             st.integers(0, 64).map(lambda k: (1 << k) - 1), st.integers(0, 63).map(lambda k: 1 << k))
+            strat = st.tuples(st.integers(0, len(pool) - 1), st.lists(word, min_size=4, max_size=4), st.integers(0, 15))
+            drawn = []
+            hyp.survey(strat, n, seed, drawn.append)
+            for i, words, k in drawn:
+                t = pool[i]
+                if t.key in dead:
+                    continue
+                vals = [w & ((1 << I.vbits(vc)) - 1) for w, (_r, vc) in zip(words, t.slots)]
+                self.im_case(res, t, vals, "all:%d" % k, "rand", dead)
 
     def im_case(self, res, t, vals, fidx, stratum, dead):
         fails, nt, drop = im_judge(t, vals, fidx)
@@ -815,7 +897,7 @@ class C19(Check):
             return
         key = (t.key, tuple(vals), fidx) if nt else None
         sample = None
-        if nt and len(res.samples) < 3 and (sum(vals) + fidx) % 5 == 1:
+        if nt and len(res.samples) < 3 and sum(vals) % 5 == 1:
             sample = {"kind": "im", "arch": t.arch, "text": t.text, "vals": [hex(v) for v in vals], "flagset": fidx}
         res.case(nontrivial_key=key, sample=sample)
         res.counters["im:%s:%s" % (stratum, t.arch)] += 1
@@ -830,8 +912,104 @@ class C19(Check):
                 if self.errcount[t.key] >= 2:
                     dead.add(t.key)
 
+    # -- replay / shrink ----------------------------------------------------------------------
+    def _eval(self, case):
+        """-> list of (bucket, detail)"""
+        if case["kind"] == "im":
+            tpl = find_tpl("%s|%s" % (case["arch"], case["text"]))
+            if tpl is None:
+                raise RuntimeError("unknown template %r" % case["text"])
+            im_assemble([tpl])
+            if not tpl.code:
+                return []
+            vals = [int(v, 16) if isinstance(v, str) else v for v in case["vals"]]
+            with quiet_stderr():
+                fails, _nt, _drop = im_judge(tpl, vals, case["flagset"])
+            return fails
+        arch, opt = case["arch"], case["opt"]
+        from vlib import ccorpus
+        wd = tempfile.mkdtemp(prefix="c19-replay-", dir=scratch_root())
+        try:
+            with quiet_stderr():
+                ctx = CcCtx(wd)
+                funcs = [(case["tag"], case["src"])]
+                _limit[0] = STEP_LIMIT["thorough"]
+                code = ctx.compile(arch, opt, funcs)[0]
+                if code is None:
+                    return []
+                exp = ctx.native(funcs, ccorpus.TARGETS[arch]["be"]).call(0, case["args"], case["arr"])
+                if exp is None:
+                    return []
+                out = CcRunner(arch, code).run(case["args"], case["arr"])
+                status, resource, detail = cc_judge_run(arch, out, exp)
+                if status in ("pass", "unsupported", "steplimit"):
+                    return []
+                return [cc_explain(ctx, case, out, status, resource, detail)]
+        finally:
+            shutil.rmtree(wd, ignore_errors=True)
+
     def replay(self, case):
-        return None
+        fails = self._eval(case)
+        if not fails:
+            return None
+        want = case.get("_bucket")
+        for bk, d in fails:
+            if bk == want:
+                return Failure(bk, d, case)
+        bk, d = fails[0]
+        return Failure(bk, d, dict(case, _bucket=bk))
+
+    def shrink(self, failure, tier):
+        case = dict(failure.case)
+        best = failure
+
+        def still(c):
+            try:
+                for bk, d in self._eval(c):
+                    if bk == failure.bucket:
+                        return Failure(bk, d, c)
+            except Exception:
+                pass
+            return None
+        if case["kind"] == "im":
+            vals = [int(v, 16) if isinstance(v, str) else v for v in case["vals"]]
+            for i in range(len(vals)):
+                for cand in (0, 1, vals[i] & 0xff, vals[i] & 0xffffffff):
+                    if cand >= vals[i]:
+                        continue
+                    nv = list(vals)
+                    nv[i] = cand
+                    r = still(dict(case, vals=[hex(v) for v in nv]))
+                    if r:
+                        vals, case, best = nv, r.case, r
+                        break
+            return best
+        for field, val in (("arr", [0] * 8), ("args", [0, 0, 0])):
+            if case.get(field) == val:
+                continue
+            r = still(dict(case, **{field: val}))
+            if r:
+                case, best = r.case, r
+        return best
+
+    def extra_evidence(self, m):
+        hist = {"cc": {}, "im": {}}
+        for k, v in m.counters.items():
+            for kind, pre in (("cc", "cc-mn:"), ("im", "im-mn:")):
+                if k.startswith(pre):
+                    arch, mn = k[len(pre):].split(":", 1)
+                    hist[kind].setdefault(arch, {})[mn] = v
+
+        def names(pre):
+            return sorted(k[len(pre):] for k in m.counters if k.startswith(pre))
+        return {"mnemonics_executed_by_compiled_C": {a: dict(sorted(d.items())) for a, d in sorted(hist["cc"].items())},
+                "mnemonics_checked_against_models": {a: dict(sorted(d.items())) for a, d in sorted(hist["im"].items())},
+                "distinct_mnemonics": {"cc": {a: len(d) for a, d in sorted(hist["cc"].items())},
+                                       "im": {a: len(d) for a, d in sorted(hist["im"].items())}},
+                "compiled_C_unsupported_instructions(llvm names)": names("cc-unsupported:"),
+                "model_templates_not_decoded_by_miasm": names("im-undecodable:"),
+                "model_templates_not_lifted_by_miasm": names("im-unsupported:"),
+                "model_templates_rejected_by_llvm_mc": names("im-llvm-rejects:")}
 
 
 CHECK = C19()
